@@ -96,7 +96,7 @@ def gen_bo(rng, n):
 
 def gen_iso(tier):
     n = 30
-    cases = [{"k": "iso", "scn": s, "n": n} for s in (1, 2, 3, 4, 5, 6, 7, 8, 9, 10, 11, 12, 13)]
+    cases = [{"k": "iso", "scn": s, "n": n} for s in (1, 2, 3, 4, 5, 6, 7, 8, 9, 10, 11, 12, 13, 14)]
     cases.append({"k": "iso", "scn": 31, "n": 10, "sockets": 100, "workers": 0})
     cases.append({"k": "iso", "scn": 31, "n": 10, "sockets": 300, "workers": 0})
     hi = 600 if tier == "quick" else 400
